@@ -12,7 +12,7 @@ or run) on caption sets built from the same folded classes:
           an empty line carried by a white-space-only text node, a bare number, and lines made
           of each format's own metacharacters ('-->', '<i>', '&', '&amp;', '{1}{2}', '|').
 
-Reference parsers: SubRip blocks separated by EMPTY lines (number, timing line, text lines);
+Reference parsers: SubRip blocks separated by blank-looking lines (number, timing line, text lines);
 WebVTT cue blocks (timing line, payload lines; tags stripped, character references decoded);
 MicroDVD lines '{f}{f}text' with '|' between lines.
 
@@ -73,7 +73,8 @@ class World:
 # ---------------------------------------------------------------- reference parsers
 def parse_srt(doc):
     cues = []
-    blocks = re.split(r"\n{2,}", doc.strip("\n"))
+    # a block ends at a blank-LOOKING line (empty, or holding only white space): that is what SubRip consumers test
+    blocks = re.split(r"\n(?:[^\S\n]*\n)+", doc.strip("\n"))
     for b in blocks:
         ls = b.split("\n")
         if len(ls) < 2:
@@ -223,3 +224,40 @@ def run(ctx, report, keys, clause_by_key, rule_by_key):
             report.check(not bad[k], rule_by_key[k], fn, f"{name} writer on {n} small caption sets: {texts[k]}",
                          {"caption_sets": n, "mismatches": bad[k][:2]}, clause_by_key[k])
     report.count("writer_documents_folded", total)
+
+
+def blank_lines(ctx, report, clause="3"):
+    """R-BLANKLINE for the line-oriented writers, as a fold: runs of 1-4 line breaks between two text lines, with and
+    without white-space-only text nodes (blank, tab, non-breaking space) between them, never produce a line that
+    ends the cue: the document still has one cue per caption and the cue still has both lines"""
+    W = World(ctx)
+    for name in ("SRT", "MicroDVD"):
+        path, q, parse, trunc, _ = FORMATS[name]
+        fn = ctx.index.get_function(path, q)
+        report.covered(fn)
+        bad = []
+        n = 0
+        for k in (1, 2, 3, 4):
+            for filler in (None, " ", "\t", "\xa0", "\xa0 "):
+                if filler is not None and k == 1:
+                    continue
+                mid = []
+                for j in range(k - 1):
+                    mid.append(filler if (filler is not None and j == 0) else None)
+                lines = ["a"] + mid + ["b"]
+                # `lines`: None = a break directly after a break; a string = a text node on its own line
+                caps = [(S, 2 * S, lines), (3 * S, 4 * S, ["next"])]
+                n += 1
+                try:
+                    doc = W.write(fn, caps)
+                except FoldRaise as e:
+                    bad.append({"breaks": k, "between": filler, "raises": e.exc_name or str(e)})
+                    continue
+                except AnalysisError as e:
+                    raise AnalysisError(f"{q} cannot be folded: {e}")
+                cues, err = parse(doc)
+                if cues is None or len(cues) != 2 or [l.strip() for l in cues[0][3] if l.strip()] != ["a", "b"]:
+                    bad.append({"breaks": k, "white_space_node_between": filler, "document": doc[:120],
+                                "read_back": err or [c[3] for c in cues]})
+        report.check(not bad, "R-BLANKLINE", fn, "runs of line breaks (and white-space-only lines) never end the cue block",
+                     {"captions_folded": n, "mismatches": bad[:3]}, clause)
